@@ -287,7 +287,7 @@ var keyioAlgs = []struct {
 func checkKeyIO(c keyioCase) (err error) {
 	okAlg := false
 	for _, a := range keyioAlgs {
-		if a.alg == c.Alg && (a.bits == c.Bits || (a.bits == 1024 && (c.Bits == 1280 || c.Bits == 2048))) {
+		if a.alg == c.Alg && (a.bits == c.Bits || (a.bits == 1024 && (c.Bits == 1280 || c.Bits == 2048 || c.Bits == 3072 || c.Bits == 4096))) {
 			okAlg = true
 		}
 	}
@@ -344,6 +344,9 @@ func checkKeyIO(c keyioCase) (err error) {
 		}
 	}()
 
+	if rk, ok := priv.(*rsa.PrivateKey); ok {
+		pbt.Class(fmt.Sprintf("rsa-modulus-octets=%d", rk.Size()), fmt.Sprintf("rsa-exponent-octets=%d", len(big.NewInt(int64(rk.E)).Bytes())))
+	}
 	// the public key in the DNSKEY follows RFC 3110 / 6605 / 8080
 	oct, derr := base64.StdEncoding.DecodeString(k.PublicKey)
 	want, _ := ref.KeyOctets(c.Alg, ref.PublicOf(priv))
@@ -477,13 +480,20 @@ func genKeyIO(t *rapid.T) keyioCase {
 	if a.bits == 1024 {
 		c.Slot = rapid.IntRange(0, 2).Draw(t, "slot")
 		if pbt.Thorough() && rapid.IntRange(0, 9).Draw(t, "big") == 0 {
-			c.Bits = rapid.SampledFrom([]int{1280, 2048}).Draw(t, "bits")
+			// library-made keys of other sizes, up to the maximum Generate accepts (one per algorithm,
+			// size and process: generating a 4096-bit key takes about a second)
+			c.Bits = rapid.SampledFrom([]int{1280, 2048, 4096, 4096}).Draw(t, "bits")
 			c.Slot = 0
 		}
 	}
 	c.RefMade = rapid.IntRange(0, 2).Draw(t, "refmade") == 0
 	if c.RefMade {
 		c.Bits = a.bits
+		if a.bits == 1024 && rapid.IntRange(0, 3).Draw(t, "edgekey") == 0 {
+			// reference-made keys at the bounds of RFC 3110 / the library: 512-octet modulus (4096
+			// bits), 3072 and 2048 bits, public exponents of one and of four octets
+			c.Slot = ref.RSAEdgeBase + rapid.IntRange(0, ref.RSAEdgeSize()-1).Draw(t, "edgeslot")
+		}
 	}
 	if !c.RefMade && len(shortCoord[c.Alg]) > 0 && rapid.IntRange(0, 2).Draw(t, "steer") == 0 {
 		c.Steer = 1 + rapid.IntRange(0, len(shortCoord[c.Alg])-1).Draw(t, "steeridx")
